@@ -1422,6 +1422,14 @@ class FnCtx:
             if x[0] == "call" and isinstance(x[1], str) and x[2] and any(x[1].endswith(s) for s in ("::deref", "::deref_mut", "::as_slice", "::as_mut_slice")):
                 x = x[2][0]
                 continue
+            if x[0] == "payload" and x[1] in ("Ok", "Some"):
+                x = x[2]                       # the collection inside a successful `collect::<Result<Vec<_>, _>>()`
+                continue
+            if x[0] == "call" and isinstance(x[1], str) and x[2] and x[1].split("::")[-1] in ("collect", "from_iter", "to_vec", "map", "iter", "into_iter", "copied", "cloned", "enumerate", "rev", "by_ref") \
+                    and not ("option::Option" in x[1] or "result::Result" in x[1]):
+                # a collection built item by item from another one has that one's length (only lengths are asked of a root key)
+                x = x[2][0]
+                continue
             if x[0] == "param":
                 return ("param", x[1])
             if x[0] == "field" and x[1][0] == "deref" and x[1][1][0] == "param":
@@ -2314,6 +2322,10 @@ class FnCtx:
                 if base[0] == "param" or (base[0] == "deref" and base[1][0] == "param"):
                     p = base if base[0] == "param" else base[1]
                     la = ("L", "param", p[1])
+                else:
+                    rk_ = self.root_key(base)
+                    if isinstance(rk_, tuple) and rk_ and rk_[0] == "param":
+                        la = ("L",) + rk_        # a collection built element-wise from a parameter slice
                 if la is not None:
                     out.append(({idx: 1, la: -1}, 1))   # idx + 1 - len <= 0
                     out.append(({idx: -1}, 0))
@@ -2510,6 +2522,10 @@ class FnCtx:
                 if base[0] == "param" or (base[0] == "deref" and base[1][0] == "param"):
                     pr = base if base[0] == "param" else base[1]
                     src = ("L", "param", pr[1])
+                else:
+                    rk = self.root_key(base)
+                    if isinstance(rk, tuple) and rk and rk[0] == "param" and len(rk) == 2:
+                        src = ("L", "param", rk[1])      # a collection built element-wise from a parameter slice
                 if src is None:
                     continue
                 # the version of the vector seen after the loop: a join marker at the loop head
